@@ -327,6 +327,17 @@ def check(prop, tier, seed, replay, lock):
             res = mod.replay(ctx, rec["case"])
         log(f"[{prop}] replay: {'FAILS' if res else 'passes'} {res or ''}")
         return 1 if res else 0
+    # every run starts after an option block with other settings has come and gone in the same process (and, inside it, an
+    # exception): what a property observes afterwards is part of its histories (seeded changes C03-14, C09-16: blocks
+    # that no longer restore the options). C14 has its own histories and starts from a fresh process.
+    if prop != "C14":
+        from harness.core import numpoly as _np
+        try:
+            with _np.global_options(retain_names=False, retain_coefficients=True, sort_graded=False, display_inverse=False):
+                _np.variable(2) + 1
+                raise LookupError("leave the block through an exception")
+        except LookupError:
+            pass
     try:
         mod.run(ctx)
     except MalformedResult as err:
